@@ -35,6 +35,11 @@ impl SimpleSequence {
         self.last_id
     }
 
+    /// Give up the unused rest of the current reservation: the next id opens (and announces) a new one.
+    pub fn discard_cache(&mut self) {
+        self.cache_size = 0;
+    }
+
     pub fn next_state(&mut self) -> anyhow::Result<(u64, Option<u64>)> {
         let mut update_table_id = None;
         if self.cache_size == 0 {
